@@ -316,6 +316,19 @@ def gen_histories(rng):
     h = dict(hs[0])
     h["heuristic"] = "MI-numba"
     hs.append(h)
+    # ORIENTATION: the corrected score conditions on the TARGET (second vector) — it is not symmetric.  Feature cardinality
+    # strictly below the target's (multi-class label / feature-feature pairs), through every entry point of the heuristic.
+    for via in ("numba_mi_1d", "conduct_feature_ranking", "numba_mi"):
+        n = rng.randint(60, 400)
+        kt = rng.choice([5, 5, 8, 40])
+        T = [rng.randrange(kt) for _ in range(n)]
+        steps = [
+            {"Y": [int(t >= kt // 2) if rng.random() > 0.15 else 1 - int(t >= kt // 2) for t in T], "X": T},   # binary signal
+            {"Y": [rng.randrange(2) for _ in range(n)], "X": T},                                               # binary noise
+            {"Y": [t % 3 if rng.random() > 0.1 else rng.randrange(3) for t in T], "X": T},                     # 3-level signal
+            {"Y": T, "X": [t % 2 for t in T]},                                                                 # the other way round
+        ]
+        hs.append({"kind": "history", "via": via, "heuristic": NAME, "reuse_feature": False, "family": "orientation", "steps": steps})
     return hs
 
 
@@ -349,6 +362,9 @@ def check(run, replay):
         ast_ok, ast_msg = False, "reader error %s: %s" % (type(e).__name__, e)
 
     rkind = (replay.get("case") or {}).get("kind") if replay is not None else None
+    if rkind == "direct-history":
+        c01.direct_history_family(run, "C03", [replay["case"]], SCALE_CLAUSE)
+        return
     if rkind == "scale":
         c01.scale_family(run, "C03", [replay["case"]], [], [], SCALE_CLAUSE)
         return
@@ -428,6 +444,10 @@ def check(run, replay):
                                    "up to single-precision rounding",
                             obligation="correspondence:impl(flag=True) = eval(model terms) within 8*2^-24*(sum|terms|+1e-6)")
 
+    # --- direct histories with the flag on (refilled buffers, short-lived arrays, self pairs)
+    if replay is None:
+        c01.direct_history_family(run, "C03", c01.gen_direct_histories(run.rng, True, 5 if run.tier == "quick" else 25), SCALE_CLAUSE)
+
     # --- SCALE families (flag on): thresholds of sort-based / blocked / sampled kernels, expected values via np_terms
     if replay is None:
         sc, stt = c01.pick_small(cases, results)
@@ -493,13 +513,15 @@ def check(run, replay):
                         run.violation("counterexample", "history of calls through importance_estimator.%s on buffers overwritten in place" % h["via"].replace("_1d", ""),
                                       case=small, impl={"step": si, "score": info.get("impl", info.get("impl_error"))},
                                       model={"step": si, "value": info["model"], "tolerance": info["tolerance"]},
-                                      clause="the score of a call is a function of the two vectors' contents at call time "
-                                             "(H(Y*|X) - H(Y|X) with Y* displaced by the CURRENT group sizes)")
+                                      clause="the score of a call through the heuristic entry point = H(Y*|X) - H(Y|X) with the TARGET (second "
+                                             "vector) as the conditioning side X and Y* displaced by the CURRENT group sizes — a function of the two "
+                                             "vectors' contents at call time")
                     break
         run.oblige("history: scores through numba_mi / conduct_feature_ranking on reused, overwritten buffers = model on the "
                    "contents at call time", hbad == 0, "%d of %d histories fail" % (hbad, len(histories)) if hbad else
                    "%d histories, %d calls" % (len(histories), nsteps))
         run.cov["histories"] = {"count": len(histories), "calls": nsteps,
+                                "orientation_histories": sum(1 for h in histories if h.get("family") == "orientation"),
                                 "via": sorted({h["via"] for h in histories}), "reuse_feature_buffer": sum(1 for h in histories if h.get("reuse_feature"))}
 
     # --- planted family: identity on every member (a failure here IS a violation), ranking only reported
